@@ -103,7 +103,7 @@ func logString(log []callRec) string {
 // C07: handlers see each member exactly once, in order; traversal still validates.
 func RunC07(c *Ctx) {
 	var long rjson.Buffer
-	c.RunDocs([]string{"W1", "W3", "W4", "W2small", "W2T", "W5small"}, func(cs *h.Case) {
+	c.RunDocs([]string{"W1", "W3", "W4", "W2small", "W2T", "W1R", "W5small"}, func(cs *h.Case) {
 		if cs.Deep {
 			c.Rec.C("skipped_nesting_beyond_10000")
 			return
